@@ -34,12 +34,15 @@ func ZZC19K1() {
 		// property: "the caret stands under the character at the reported column ... after truncation"
 		nd.Assert(d <= len(t), "caret inside excerpt")
 		nd.Assert(t[d-1] == s[col-1], "caret under the reported character")
+	} else {
+		// column len+1 (the end of the line): like on a short line, the caret stands one past the last shown character
+		nd.Assert(d == len(t)+1, "column one past the end of the line: caret one past the end of the excerpt")
 	}
 }
 
 // C19-K2: the line window. Cache entry = arbitrary file of 0..5 lines (contents are opaque atoms: the code only copies
-// them), arbitrary diagnostic line >= 1: result = lines max(1,L-2)..min(n,L+1) with their numbers, nothing if the file is
-// shorter than the window start; never a failure.
+// them), arbitrary diagnostic line >= 1: result = lines max(1,L-2)..min(n,L+1) with their numbers, nothing if the file
+// does not reach line L; never a failure.
 func ZZC19K2() {
 	n := nd.Int("n_lines")
 	nd.Assume(0 <= n)
@@ -58,7 +61,9 @@ func ZZC19K2() {
 	res := r.readSourceLines("f.go", L, 2, 1)
 	lo := nd.IteInt(L-2 >= 1, L-2, 1)
 	hi := nd.IteInt(L+1 <= n, L+1, n)
-	wantLen := nd.IteInt(lo <= hi, hi-lo+1, 0)
+	// a file that does not reach the diagnostic's line is "shorter than expected": no excerpt at all (context lines
+	// without the line they are the context of are not an excerpt of the diagnostic)
+	wantLen := nd.IteInt(L <= n, hi-lo+1, 0)
 	nd.Observe("count", len(res.content))
 	nd.Assert(len(res.content) == wantLen, "window has the documented number of lines")
 	nd.Assert(len(res.lineNumbers) == len(res.content), "one number per line")
@@ -281,4 +286,98 @@ func ZZC19Tabs() {
 	if col <= len(line) {
 		nd.Assert(d >= 1 && d <= len(t) && t[d-1] == line[col-1], "long indented line: caret under the reported character")
 	}
+}
+
+// C19-K7: multi-byte characters. A one-line file of three (thorough: four) "characters", each arbitrary in {a, TAB, é (2 bytes), € (3 bytes),
+// nothing}; the diagnostic's column is the byte column of any character boundary (what go/token reports): the caret row has
+// ONE cell per character before the column (a tab for a tab), so that the caret stands under the reported character.
+func ZZC19Utf8()  { zzC19Utf8(3) }
+func ZZC19Utf8x4() { zzC19Utf8(4) }
+
+func zzC19Utf8(n int) {
+	alphabet := []string{"a", "\t", "é", "€", ""}
+	ch := make([]string, n)
+	line := ""
+	for i := range ch {
+		ch[i] = nd.Enum(fmt.Sprintf("ch%d", i+1), alphabet...)
+		line += ch[i]
+	}
+	line += "x"
+	j := nd.Int("boundary")
+	nd.Assume(0 <= j)
+	nd.Assume(j <= n)
+	col := 1
+	caret := ""
+	for i := range ch {
+		col += nd.IteInt(i < j, len(ch[i]), 0)
+		cell := nd.IteStr(ch[i] == "\t", "\t", nd.IteStr(ch[i] == "", "", " "))
+		caret += nd.IteStr(i < j, cell, "")
+	}
+	fset, pos := nd.FsetFor("f.go", line, 1, col)
+	var got string
+	pass := &analysis.Pass{
+		Fset:     fset,
+		ReadFile: func(name string) ([]byte, error) { return []byte(line), nil },
+		Report:   func(d analysis.Diagnostic) { got = d.Message },
+	}
+	NewReporter(pass, nil).ReportViolation(zzViolation{code: "IMM01", msg: "m", pos: pos})
+	want := "error: [IMM01] m\n  |\n1 | " + line + "\n  | " + caret + "^\n  |\n   = help: " + zzDocURL("IMM01") + "\n"
+	nd.Observe("got", got)
+	nd.Assert(got == want, "multi-byte characters before the column: one caret cell per character")
+}
+
+// C19-K8: truncation never cuts a multi-byte character. A 308-byte line of 150 two-byte characters followed by ASCII text;
+// the column is the byte column of any character: the shown piece starts and ends at character boundaries, the caret
+// column still addresses the reported character, and the length bound holds.
+func ZZC19Utf8Long() {
+	line := strings.Repeat("é", 150) + "x.f = 12"
+	col := nd.Int("col")
+	nd.Assume(1 <= col)
+	nd.Assume(col <= len(line))
+	b0 := line[col-1]
+	nd.Assume(b0 < 0x80 || b0 >= 0xC0) // a character starts at the column
+	t := truncateString(line, MaxLineLength, col)
+	d := calculateDisplayColumn(line, col, MaxLineLength)
+	nd.Assert(len(t) <= MaxLineLength+6, "excerpt length bounded by limit + ellipses")
+	nd.Assert(nd.And(1 <= d, d <= len(t)), "caret inside excerpt")
+	nd.Assert(t[d-1] == line[col-1], "caret column addresses the reported character")
+	first, last := 0, len(t)-1
+	if strings.HasPrefix(t, "...") {
+		first = 3
+	}
+	if strings.HasSuffix(t, "...") {
+		last = len(t) - 4
+	}
+	nd.Assert(t[first] < 0x80 || t[first] >= 0xC0, "the shown piece does not begin inside a character")
+	nd.Assert(t[last] < 0xC0, "the shown piece does not end inside a character")
+}
+
+// C19-K9: "however long the source line is" beyond the scanner's default token limit. A file whose second line has 70 000
+// bytes; the diagnostic is on that line, or on the short line below it (any of the two, any column of a 3-byte window):
+// the excerpt still shows the reported line (truncated) with the caret under the reported character.
+func ZZC19VeryLongLine() {
+	long := strings.Repeat("abcdefghij", 7000)
+	content := "first\n" + long + "\nlast line\n"
+	onLong := nd.Bool("diagnostic_on_long_line")
+	col := nd.Int("col")
+	nd.Assume(1 <= col)
+	nd.Assume(col <= 3)
+	L := nd.IteInt(onLong, 2, 3)
+	fset, pos := nd.FsetFor("f.go", content, nd.Pin(L), col)
+	var got string
+	pass := &analysis.Pass{
+		Fset:     fset,
+		ReadFile: func(name string) ([]byte, error) { return []byte(content), nil },
+		Report:   func(d analysis.Diagnostic) { got = d.Message },
+	}
+	NewReporter(pass, nil).ReportViolation(zzViolation{code: "IMM01", msg: "m", pos: pos})
+	shownLong := long[:MaxLineLength-3] + "..."
+	want := "error: [IMM01] m\n  |\n1 | first\n2 | " + shownLong + "\n"
+	if L == 2 {
+		want += "  | " + strings.Repeat(" ", col-1) + "^\n3 | last line\n"
+	} else {
+		want += "3 | last line\n  | " + strings.Repeat(" ", col-1) + "^\n"
+	}
+	want += "  |\n   = help: " + zzDocURL("IMM01") + "\n"
+	nd.Assert(got == want, "a line beyond 64 KiB is shown (truncated) and does not hide the lines after it")
 }
